@@ -521,3 +521,23 @@ def r_hoisted_guards(ctx):
                 ctx.check(not new, 'R00.1', 'hoisted-guard/%s<-%s' % (callee.split('::')[-1], (cb.fn_name or 'closure')), cb, cb.loc(bb),
                           'the early return that %s gained is the guard its call site already had' % callee.split('::')[-1],
                           '%s now returns early under a condition that did not guard its call before (%s): a step that always acted when called can be skipped for a new reason' % (callee.split('::')[-1], '; '.join(new)[:200]))
+
+
+def loops_exhaust(ctx, rule, inst, body, what):
+    """every `for` loop of `body` (an Iterator::next call) is left only when its iterator is exhausted: from the Some edge of the loop, no
+    return is reachable without asking the iterator again (a `break` / early `return` inside the loop body stops a traversal that the
+    bottom-up passes need complete). Loops whose Some edge cannot reach the next() call again (a `find`-like single step) are skipped."""
+    n = 0
+    for (bb, t) in body.calls_to('Iterator::next'):
+        p = body.term_point(bb)
+        call = body.origin.call(t, p)
+        some_ = [(tb, 0) for bbk in body.live_blocks() if body.term(bbk)['k'] == 'switch' for (tb, lab) in body.succ(bbk)
+                 if (lambda lit: lit and lit[0] == 'in' and lit[1] == call and lit[2] == frozenset(['Some']))(M.edge_literal(body, bbk, lab))]
+        if not some_ or p not in body.reach(some_):
+            continue
+        n += 1
+        r = body.reach(some_, avoid=[p])
+        ctx.check(not any(q in r for q in ret_points(body)), rule, '%s/loop-runs-to-exhaustion#%d' % (inst, n), body, body.loc(bb),
+                  'the loop of %s is left only when its iterator is exhausted' % what,
+                  'a loop of %s can be left before its iterator is exhausted (break / early return in the loop body): the traversal is incomplete' % what)
+    return n
